@@ -698,6 +698,11 @@ class Interp:
             if isinstance(x, ElemV) and x.role == "check" and isinstance(y, ExtV) and y.name in ("z3.sat", "z3.unsat", "z3.unknown", "z3.z3.sat", "z3.z3.unsat", "z3.z3.unknown"):
                 if op in ("Eq", "Is"):
                     return ("check3", x.var[1], y.name.rsplit(".", 1)[1])
+        # --- type(partition-or-False) == list
+        for x, y in ((a, b), (b, a)):
+            if isinstance(x, Sym) and isinstance(x.label, tuple) and x.label[:1] == ("type",) and isinstance(y, ExtV) and y.name == "builtins.list" \
+                    and isinstance(x.label[1], tuple) and x.label[1][:1] == ("part",) and op in ("Eq", "Is"):
+                return ("not", ("partfalse", x.label[1]))
         # --- partition-or-False
         for x, y in ((a, b), (b, a)):
             if isinstance(x, ElemV) and x.role == "partition" and isinstance(y, Const) and y.value is False and op in ("Eq", "Is"):
